@@ -447,6 +447,8 @@ def run_history(spec, ops, step_ticks, cb_ticks, clock0=0, ctl=None):
                     out["ret"] = flat(ret)
                 except CallbackFailure:
                     out["outcome"] = "cbraise"
+                except ZeroDivisionError:
+                    out["outcome"] = "zerodiv"  # display with period = 0
                 except ValueError as e:
                     out["outcome"] = "nan" if "NaN or Inf" in str(e) else "ValueError"
                 except Exception as e:  # noqa: BLE001
